@@ -71,7 +71,7 @@ func runC08(r *Report, tier string) {
 			o.check(isM && g == encGlobal && c.Method.Name() == "Marshal", g+".Marshal", "encode through "+mt.String()+"."+c.Method.Name())
 		}
 	}
-	r.floor("R08.2", nenc, 12, "EncMode call sites")
+	r.floorSoft("R08.2", nenc, 12, "EncMode call sites")
 	nm := 0
 	for _, fn := range P.methodsNamed("MarshalCBOR", "") {
 		for _, x := range P.factsOf(fn).exits {
@@ -160,7 +160,7 @@ func runC08(r *Report, tier string) {
 			o.check(bad == "", "body only tests, inserts into maps/sets and returns", "iteration order can reach the output: "+bad)
 		}
 	}
-	r.floor("R08.4", nl, 3, "map range loops on encode paths")
+	r.floorSoft("R08.4", nl, 3, "map range loops on encode paths")
 
 	// R08.5
 	checkBucketEncoders(r, "R08.5")
